@@ -1,6 +1,7 @@
 import Anysystem.Proofs.TimerContract
 import Anysystem.Proofs.TimerWitness
 import Anysystem.Proofs.SimStepThms
+import Anysystem.Proofs.SimWholeRun
 /-!
 # C07 — The timer API contract holds identically in simulation and model checking
 
@@ -41,5 +42,16 @@ namespace Anysystem
 #check @Sim.handleActions_override_timer
 #check @Sim.handleActions_once_ignored
 #check @Sim.handleActions_cancel_timer
+
+/- simulator, whole runs: queue, `pending` tables and event logs fit together (`TimerInv`, preserved by every operation incl.
+   crash / recover / re-add), hence no process's event log ever contains a firing the timer contract forbids -/
+#check @Sim.TimerInv.init
+#check @Sim.TimerInv.step
+#check @Sim.TimerInv.steps
+#check @Sim.TimerInv.sendLocal
+#check @Sim.TimerInv.crashNode
+#check @Sim.TimerInv.recoverNode
+#check @Sim.TimerInv.addProcess
+#check @Sim.sim_timer_contract
 
 end Anysystem
